@@ -317,6 +317,8 @@ pub enum Stuck {
     Parked { tids: Vec<u32>, samples: u32, span_ms: u64 },
     /// The generous wall-clock watchdog fired: inconclusive, never a violation.
     Watchdog,
+    /// A library thread burns CPU time without anything happening at the wrapped sink / handler / hooks.
+    Spinning { tid: u32, cpu_ms: u64 },
 }
 
 impl Stuck {
@@ -325,6 +327,7 @@ impl Stuck {
             Stuck::NoLibraryThread => "no library thread exists any more".into(),
             Stuck::Parked { tids, samples, span_ms } => format!("library thread(s) {:?} parked for good: state S, context-switch counters unchanged over {} samples / {} ms, nothing left that could wake them", tids, samples, span_ms),
             Stuck::Watchdog => "wall-clock watchdog expired (inconclusive)".into(),
+            Stuck::Spinning { tid, cpu_ms } => format!("library thread {} has consumed {} ms of CPU time while no event was logged at the wrapped sink, the handler or the schedule points: it spins without making progress", tid, cpu_ms),
         }
     }
     pub fn is_verdict(&self) -> bool {
@@ -389,12 +392,14 @@ pub fn await_log(sh: &Shared, pred: impl Fn(&St) -> bool) -> Result<(), Stuck> {
         pred(&g)
     };
     let zombies: BTreeSet<u32> = zombie_tids();
-    let r = watch_excluding(check, &zombies, PARK_SAMPLES, PARK_SPAN, WATCHDOG.saturating_sub(start.elapsed()));
+    let progress = || sh.st.lock().unwrap_or_else(|e| e.into_inner()).log.len() as u64;
+    let r = watch_excluding_p(check, &zombies, PARK_SAMPLES, PARK_SPAN, WATCHDOG.saturating_sub(start.elapsed()), Some(&progress));
     match r {
         None => Ok(()),
         Some(Quiescence::NoLibraryThread) => Err(Stuck::NoLibraryThread),
         Some(Quiescence::ParkedForGood { tids, samples, span_ms }) => Err(Stuck::Parked { tids, samples, span_ms }),
         Some(Quiescence::Active) => Err(Stuck::Watchdog),
+        Some(Quiescence::Spinning { tid, cpu_ms }) => Err(Stuck::Spinning { tid, cpu_ms }),
     }
 }
 
@@ -417,6 +422,7 @@ pub fn await_no_library_thread() -> Result<(), Stuck> {
         Some(Quiescence::NoLibraryThread) => Ok(()),
         Some(Quiescence::ParkedForGood { tids, samples, span_ms }) => Err(Stuck::Parked { tids, samples, span_ms }),
         Some(Quiescence::Active) => Err(Stuck::Watchdog),
+        Some(Quiescence::Spinning { tid, cpu_ms }) => Err(Stuck::Spinning { tid, cpu_ms }),
     }
 }
 
@@ -448,12 +454,29 @@ pub fn await_thread_gone(tid: u32) -> Result<(), Stuck> {
         Some(Quiescence::NoLibraryThread) => Ok(()),
         Some(Quiescence::ParkedForGood { tids, samples, span_ms }) => Err(Stuck::Parked { tids, samples, span_ms }),
         Some(Quiescence::Active) => Err(Stuck::Watchdog),
+        Some(Quiescence::Spinning { tid, cpu_ms }) => Err(Stuck::Spinning { tid, cpu_ms }),
     }
 }
 
-fn watch_excluding(mut done: impl FnMut() -> bool, zombies: &BTreeSet<u32>, min_samples: u32, min_span: Duration, watchdog: Duration) -> Option<Quiescence> {
+fn watch_excluding(done: impl FnMut() -> bool, zombies: &BTreeSet<u32>, min_samples: u32, min_span: Duration, watchdog: Duration) -> Option<Quiescence> {
+    watch_excluding_p(done, zombies, min_samples, min_span, watchdog, None)
+}
+
+/// CPU time one library thread may consume without any event being logged before it counts as spinning (a
+/// worker that does its job logs an event every few microseconds of CPU time; 3 s of CPU time, not of wall-clock time).
+const SPIN_CPU_TICKS: u64 = 300;
+
+/// Set once a library thread was found spinning: it goes on burning CPU time, the driver should wind up.
+pub static SPIN_SEEN: std::sync::atomic::AtomicBool = std::sync::atomic::AtomicBool::new(false);
+
+/// As `watch_excluding`; with `progress` (a counter that moves whenever the library does something observable) a third
+/// logical verdict is possible: a library thread that consumes SPIN_CPU_TICKS of CPU time while the counter stands still.
+fn watch_excluding_p(mut done: impl FnMut() -> bool, zombies: &BTreeSet<u32>, min_samples: u32, min_span: Duration, watchdog: Duration, progress: Option<&dyn Fn() -> u64>) -> Option<Quiescence> {
     use std::collections::BTreeMap;
     let start = Instant::now();
+    let mut last_progress: Option<u64> = None;
+    let mut cpu_base: BTreeMap<u32, u64> = BTreeMap::new();
+    let mut spin_probe = 0u32;
     let mut last: BTreeMap<u32, procmon::TaskStatus> = BTreeMap::new();
     let mut stable_since = Instant::now();
     let mut stable_samples = 0u32;
@@ -501,6 +524,31 @@ fn watch_excluding(mut done: impl FnMut() -> bool, zombies: &BTreeSet<u32>, min_
                 return None;
             }
             return Some(Quiescence::ParkedForGood { tids, samples: stable_samples, span_ms: stable_since.elapsed().as_millis() as u64 });
+        }
+        if let Some(p) = progress {
+            spin_probe += 1;
+            if spin_probe % 20 == 0 {
+                let now = p();
+                if last_progress != Some(now) {
+                    last_progress = Some(now);
+                    cpu_base.clear();
+                }
+                for t in &tids {
+                    if let Some(c) = procmon::task_cpu_ticks(*t) {
+                        let base = *cpu_base.entry(*t).or_insert(c);
+                        if c.saturating_sub(base) >= SPIN_CPU_TICKS {
+                            if done() {
+                                return None;
+                            }
+                            if p() == now {
+                                SPIN_SEEN.store(true, std::sync::atomic::Ordering::SeqCst);
+                                return Some(Quiescence::Spinning { tid: *t, cpu_ms: (c - base) * 10 });
+                            }
+                        }
+                    }
+                }
+                cpu_base.retain(|t, _| tids.contains(t));
+            }
         }
         if start.elapsed() > watchdog {
             return Some(Quiescence::Active);
